@@ -334,6 +334,27 @@ def place_items(tier):
                 if tier == "quick" and (j - i) > 3:
                     continue
                 out.append({"id": f"{s}#off:{r1}@{i}-on@{j}", "seed": s, "style": None, "cfg": None, "tags": [[i, f"-- vsg_off {r1}"], [j, f"-- vsg_on {r1}"]], "shape": "pair_rule"})
+    # rules whose violations carry a multi-line token slice (specs/wide_span_rules.json, derived by tools/wide_span_rules.py):
+    # a tag pair around every single line, and a next-line tag before every line, of their own fixture
+    import json
+    import os
+
+    wp = os.path.join(base.VERIF, "specs", "wide_span_rules.json")
+    wide = json.load(open(wp)) if os.path.exists(wp) else {}
+    from . import configs_k1
+
+    have = {(o["seed"], o["shape"]) for o in out}
+    for rid in sorted(wide):
+        s = configs_k1.fixture_of(rid)
+        if not s or len(corpus.lines_of(s)) > (40 if tier == "quick" else 60) or (s, "pair_rule") in have:
+            continue
+        si = universe.seedinfo(s)
+        n = len(si.lines)
+        pos = sorted(set([0] + [i + 1 for i in sorted(si.bound) if si.bound[i]["insert"]] + [n]))
+        en = {"rule": {rid: {"disable": False}}} if configs_k1.inventory()[rid]["disable"] else None
+        for i, j in zip(pos, pos[1:]):
+            out.append({"id": f"{s}#off:{rid}@{i}-on@{j}", "seed": s, "style": None, "cfg": en, "tags": [[i, f"-- vsg_off {rid}"], [j, f"-- vsg_on {rid}"]], "shape": "pair_rule"})
+            out.append({"id": f"{s}#next:{rid}@{i}", "seed": s, "style": None, "cfg": en, "tags": [[i, f"-- vsg_disable_next_line {rid}"]], "shape": "next"})
     return out
 
 
